@@ -23,7 +23,10 @@ LINK_SAFE = {'os.remove', 'os.unlink', 'os.rmdir'}
 
 # rules of sibling properties that are necessary conditions of this one too
 # (evaluated by the sibling module on the same graphs, reported under this property)
-ALSO = {'C08': {'R08.1': 'a $topdir/.Trash that is a symlink is never emptied through'}}
+ALSO = {'C08': {'R08.1': 'a $topdir/.Trash that is a symlink is never emptied through'},
+ 'C15': {'R15.4': 'whether a payload is there to be unlinked is decided without following it '
+                  '(a trashed dangling link is unlinked like any other)'},
+ 'C18': {'R18.5': 'tests on a trashed payload do not follow symlinks'}}
 
 def check(ctx):
     # ---- R11.5 the payload name derived from an info name is a real name
